@@ -277,7 +277,11 @@ BUCKETS = ["aw-watcher-window_host", "aw-watcher-afk_host", "aw-watcher-web_host
 
 _STR_POOL = ["", "a", "app", "title", "url", "status", "not-afk", "afk", "firefox", "x y", "ünï", "日本", "a,b", "a, b",
              "[x]", "(y)", "{z}", "k=v", "a:b", "it's", 'say "hi"', "back\\slash", "\\\"q", "]", ")", "}", ",", "((", "[[",
-             "'", '"', "a\\'b", "tab\there", "#c", "1", "f(1)", "x=[1,2]", "\\n"]
+             "'", '"', "a\\'b", "tab\there", "#c", "1", "f(1)", "x=[1,2]", "\\n",
+             # text that a well-meant normalisation (Unicode composition, compatibility folding, case folding, trimming)
+             # would re-spell: a string literal means exactly the characters written
+             "Cafe\u0301", "\u1112\u1161\u11ab", "10 k\u2126", "q\u0307\u0323", "\ufb01n", "\uff21\uff22", " padded ",
+             "MiXeD", "a\u00a0b", "a\u200bb", "\u202ertl", "line\u2028sep", "\u00c5 \u212b A\u030a"]
 _KEY_POOL = ["app", "title", "url", "status", "$category", "$tags", "missing"]
 _REGEX_POOL = ["fire", "Fire", "^a", "x|y", ".", "vim", "[A-Z]", "a.c", "ü"]
 _VARS = ["x", "y", "z", "events", "e2", "_v1", "a1", "afk", "Tmp", "not_afk"]
